@@ -58,6 +58,29 @@ def tag_width(variants: int) -> int:
 HEADER_WIDTH = 32
 
 
+def item_value(res: "Resolver", d: dict, si: int, it: list):
+    """Concrete value of a constant item: bool | [num, den]. A derived constant refers to an earlier constant of the same
+    section ({"ref": NAME, "add": n}) or to a constant of another message definition ({"xref": [key, NAME], "add": n})."""
+    v = it[4]
+    if isinstance(v, dict) and "ref" in v:
+        for prev in d["secs"][si]["items"]:
+            if prev is it:
+                break
+            if prev[0] == "c" and prev[2] == v["ref"]:
+                b = item_value(res, d, si, prev)
+                return [b[0] + int(v.get("add", 0)) * b[1], b[1]]
+        raise KeyError("constant %s is not defined before its use" % v["ref"])
+    if isinstance(v, dict) and "xref" in v:
+        key, name = v["xref"]
+        od = res.defs[key]
+        for prev in od["secs"][0]["items"]:
+            if prev[0] == "c" and prev[2] == name:
+                b = item_value(res, od, 0, prev)
+                return [b[0] + int(v.get("add", 0)) * b[1], b[1]]
+        raise KeyError("constant %s.%s is not defined" % (key, name))
+    return v
+
+
 class Resolver:
     """Maps reference keys to definitions (one abstract namespace universe)."""
 
@@ -94,7 +117,7 @@ class Sec:
             elif it[0] == "p":
                 self.fields.append((None, ["void", it[1]]))
             elif it[0] == "c":
-                self.consts.append((it[2], it[1], it[4]))
+                self.consts.append((it[2], it[1], item_value(res, d, index, it)))
         self.inner = self._inner_node()
         self.inner_extent = self.inner.hi
         self.sealed = self.seal == "sealed"
@@ -233,6 +256,8 @@ def def_refs(d: dict) -> list[str]:
                 for r in refs_in(it[1]):
                     if r not in out:
                         out.append(r)
+                if it[0] == "c" and isinstance(it[4], dict) and "xref" in it[4] and it[4]["xref"][0] not in out:
+                    out.append(it[4]["xref"][0])
             elif it[0] == "raw" and len(it) > 2 and it[2]:
                 for r in it[2]:  # explicit references made by a raw line (e.g. in an expression)
                     if r not in out:
